@@ -281,7 +281,9 @@ def roundtrip(col, item):
     work = tempfile.mkdtemp(prefix="verif-c12-")
     try:
         base = {"plain": "file", "dots": "a.b.c.nc", "suffixchars": {"zip": "temp.p", "gz": "log.gz", "bz2": "b2", "xz": "x.x"}[fmt],
-                "uppercase": "DATA", "mixedcase": "map.v2", "bare-format-name": "", "dot-format-name": ""}[naming]
+                "uppercase": "DATA", "mixedcase": "map.v2", "bare-format-name": "", "dot-format-name": "",
+                # the longest name the file system takes (255 bytes with the suffix), partly in two-byte characters
+                "longest": "m\u00e9t\u00e9o-" + "x" * (255 - 8 - 1 - len(fmt))}[naming]
         # an upper- or mixed-case suffix is either a compression suffix or it is not: the name is passed through untouched
         # or a genuine archive is stored -- in both readings the bytes come back and exactly one file is left
         suffix = fmt.upper() if naming == "uppercase" else fmt.capitalize() if naming == "mixedcase" else fmt
@@ -385,7 +387,7 @@ def run(ctx):
                     seq += 1
                     items.append((c, fmt, cname, naming, seq))
     pmap(ctx, replay, items)
-    pmap(ctx, roundtrip, [(f, c, n) for f in FORMATS for c in CONTENTS for n in ("plain", "dots", "suffixchars", "uppercase", "mixedcase", "bare-format-name", "dot-format-name")])
+    pmap(ctx, roundtrip, [(f, c, n) for f in FORMATS for c in CONTENTS for n in ("plain", "dots", "suffixchars", "uppercase", "mixedcase", "bare-format-name", "dot-format-name", "longest")])
     pmap(ctx, nested, FORMATS, procs=1)
     ctx.traces += len(items)
     ctx.sample({"terminal_state": cases[3], "replayed_as": {"format": "gz", "content": "chunks", "naming": "dots"}})
